@@ -30,6 +30,10 @@ def run (op : String) (j : Json) : Option Json :=
       | .err => Json.mkObj [("res", jstr "err")]
       | .ok es => Json.mkObj [("res", jstr "ok"), ("ids", jlist (fun o => match o with | none => Json.null | some (e : Entry) => toJson e.id) es)]
   | "indexGet" => some <| resJson (get ((arr j "vs").map toEntry) (str j "version") (boolv j "constraintOk"))
+  | "resolvePick" =>
+    some <| match resolvePick ((arr j "vs").filterMap toEntry) with
+      | some e => Json.mkObj [("res", jstr (toString e.id))]
+      | none => Json.mkObj [("res", jstr "err")]
   | "tagMatch" => some <| resJson (tagMatch ((arr j "tags").filterMap toEntry) (str j "version") (boolv j "constraintOk"))
   | _ => none
 
